@@ -108,7 +108,8 @@ def capture_request(world, coro_factory, rid_sym, which_datagram):
 
     import puresnmp.api.raw as raw
     import puresnmp_plugins.security.usm as pusm
-    saved = (raw.get_request_id, pusm.get_request_id)
+    from engine.core import seam
+    saved = (seam(raw, "get_request_id"), seam(pusm, "get_request_id"))
     raw.get_request_id = rid
     pusm.get_request_id = rid
     seen = []
